@@ -67,8 +67,22 @@ def jobs(tier, seed):
         ins, outs = rng.choice([(["x"], ["y"]), (["x", "u"], ["y"]), (["x"], ["y", "z"]), (["e1"], ["y"]), (["x"], ["E2", "y"])])
         c = CS.rand_contract(rng, ins, outs, alphabet, na=(0, 1), ng=(1, 2))
         # opposite pair in a random position of the guarantees (and sometimes the assumptions)
-        pair = rng.choice(["none", "g", "g", "a"])
-        if pair == "g":
+        pair = rng.choice(["none", "g", "g", "a", "sub", "super"])
+        if pair in ("sub", "super"):
+            # near-opposite neighbours that must NOT fold: the negation of a term plus (or minus) one more variable
+            allv = ins + outs
+            cand = [t for t in c["g"] if len(t) < len(allv)]
+            if cand:
+                t = rng.choice(cand)
+                extra = rng.choice([v for v in allv if v not in t])
+                neg = {k: -v for k, v in t.items()}
+                neg[extra] = rng.choice(alphabet)
+                k = c["g"].index(t)
+                if pair == "sub":
+                    c["g"].insert(k + 1, neg)
+                else:
+                    c["g"].insert(k, neg)
+        elif pair == "g":
             t = rng.choice(c["g"])
             pos = rng.randrange(len(c["g"]) + 1)
             c["g"].insert(pos, {k: -v for k, v in t.items()})
